@@ -111,6 +111,30 @@ type shardRun struct {
 	cpuPrev      float64
 	blockedSince time.Time
 	quitSent     bool
+	stallQuit    bool
+}
+
+// spinningFrame finds, in a goroutine dump, the goroutine that is running (or runnable) and returns the first frame
+// from the top of its stack that belongs to pat-go - or "" if a frame of the monitor comes first (the monitor itself is
+// the one computing) or no such goroutine is found.
+func spinningFrame(dump string) string {
+	reFrame := regexp.MustCompile(`(?m)^([A-Za-z0-9_./\-]+[A-Za-z0-9_)\]*])\(`)
+	for _, g := range strings.Split(dump, "\n\ngoroutine ") {
+		head := firstLines(g, 1)
+		if !(strings.Contains(head, "[running") || strings.Contains(head, "[runnable")) {
+			continue
+		}
+		for _, m := range reFrame.FindAllStringSubmatch(g, -1) {
+			fn := m[1]
+			switch {
+			case strings.HasPrefix(fn, "github.com/cloudflare/pat-go/"):
+				return fn
+			case strings.HasPrefix(fn, "verifharness/"):
+				return ""
+			}
+		}
+	}
+	return ""
 }
 
 // blockedSeconds: a worker whose current case has consumed no CPU time at all for this long, with every thread
@@ -307,6 +331,31 @@ func driverMain(args []string) int {
 				}
 			}
 			class := classifyDeath(tail)
+			if sr.stallQuit {
+				full, _ := os.ReadFile(sr.stderr)
+				dump := string(full)
+				if len(dump) > 4<<20 {
+					dump = dump[:4<<20]
+				}
+				if fr := spinningFrame(dump); fr != "" {
+					v := Violation{Case: int64(idx), Key: "non-termination:" + fr, What: fmt.Sprintf("a call did not return: the case burned more than %.0f CPU seconds and the running goroutine is inside %s", stallCPUSeconds, fr),
+						Detail: map[string]any{"journal_note": note, "running_in": fr, "goroutine_dump_head": firstLines(dump, 60)}}
+					merged.Violations = append(merged.Violations, v)
+					sr.deaths++
+					if sr.deaths <= 2 {
+						if int64(idx) > sr.from {
+							launch(&shardRun{shard: sr.shard, from: sr.from, to: int64(idx) - 1, deaths: 99})
+						}
+						if int64(idx) < sr.to {
+							launch(&shardRun{shard: sr.shard, from: int64(idx) + 1, to: sr.to, deaths: sr.deaths})
+						}
+					} else {
+						inconclusive = append(inconclusive, fmt.Sprintf("shard %d stalled %d times; rest of its cases not run", sr.shard, sr.deaths))
+					}
+					continue
+				}
+				// no pat-go frame on top of the running goroutine: fall through to the old rules (C03: violation, others: inconclusive)
+			}
 			if sr.quitSent {
 				full, _ := os.ReadFile(sr.stderr)
 				dump := string(full)
@@ -411,7 +460,9 @@ func driverMain(args []string) int {
 							f.Close()
 						}
 					}
-					sr.cmd.Process.Kill()
+					sr.stallQuit = true
+					sr.cmd.Process.Signal(syscall.SIGQUIT)
+					go func(p *os.Process) { time.Sleep(20 * time.Second); p.Kill() }(sr.cmd.Process)
 				}
 			}
 		}
